@@ -18,11 +18,11 @@ func init() { register(c06{}) }
 
 func (c06) ID() string { return "C06" }
 func (c06) Rule() string {
-	return "values: every location of gen.Universe(L<=6,arity<=3) and seeded locations built with the public constructors (Join/Order/.Complement/PartialRange; depth<=3, 1..5 parts, incl. abutting, duplicate, overlapping and single-base parts): AsLocation(v.String()) must succeed, print identically and have equal atoms (residues, sites, strand, ambiguity) and open-end markers. strings: printed values, the legacy trailing '>' spelling, 1-3 character mutations of printed values, and random strings over the location alphabet: for every accepted string print(parse(s)) must be a fixed point of parse-then-print. reduction: for raw part lists P (abutting, duplicate, single-base, zero-length, complemented members) Join(P...) and Order(P...) must denote the same set of residues in the same order of first occurrence, on the same strands, as the concatenation of the members. non-trivial: a list location, a partial end, or a string that is not a printed value; distinct: canonical case text."
+	return "values: every location of gen.Universe(L<=6,arity<=3) and seeded locations built with the public constructors (Join/Order/.Complement/PartialRange; depth<=3, 1..5 parts, incl. abutting, duplicate, overlapping and single-base parts): AsLocation(v.String()) must succeed, print identically and have equal atoms (residues, sites, strand, ambiguity) and open-end markers. strings: printed values, the legacy trailing '>' spelling, 1-3 character mutations of printed values, and random strings over the location alphabet: for every accepted string print(parse(s)) must be a fixed point of parse-then-print. text: expressions assembled by the harness over pairwise separated leaves (points, between-sites, partial ranges, ambiguous spans; join/order/complement nested up to depth 3, members in any order): AsLocation(text) must denote exactly what the expression says (the model reads it off a literal value no library constructor touched): same residues, sites, strands, order, open-end markers, join vs order; and its print must read back to the same. reduction: for raw part lists P (abutting, duplicate, single-base, zero-length, complemented members) Join(P...) and Order(P...) must denote the same set of residues in the same order of first occurrence, on the same strands, as the concatenation of the members. non-trivial: a list location, a partial end, or a string that is not a printed value; distinct: canonical case text."
 }
 func (c06) RequiredBuckets(tier string) []string {
 	out := []string{"value:roundtrip", "string:accepted", "string:rejected", "string:legacy-gt", "string:mutated", "string:random", "reduce:join", "reduce:order",
-		"reduce:abutting", "reduce:duplicate", "reduce:site-absorbed", "reduce:complemented-members", "depth:3"}
+		"reduce:abutting", "reduce:duplicate", "reduce:site-absorbed", "reduce:complemented-members", "depth:3", "text:denotation", "text:depth>=3"}
 	for _, k := range []string{"point", "site", "range", "prange", "ambiguous", "join", "order", "c-range", "c-join", "c-order"} {
 		out = append(out, "kind|"+k)
 	}
@@ -107,6 +107,9 @@ func (m c06) checkValue(c *fw.Ctx, v gts.Location) {
 	if p, val, site, stack := fw.Guard(func() { parsed, err = gts.AsLocation(s) }); p {
 		c.ViolateX("value:parse:"+panicClass(site, val), enc, "no panic", fmt.Sprint(val), stack, nil)
 		return
+	}
+	if err == nil {
+		c.Hold(enc, func() string { return model.SafeString(parsed) + " " + model.PartsString(model.Parts(parsed)) })
 	}
 	if err != nil {
 		c.Violate("value:print-not-accepted:"+locKind(v), enc, "accepted", err.Error())
@@ -282,6 +285,7 @@ func (m c06) checkReduce(c *fw.Ctx, members []gts.Location, order bool) {
 		c.ViolateX("reduce:"+panicClass(site, val), enc, "no panic", fmt.Sprint(val), stack, nil)
 		return
 	}
+	c.Hold(enc, func() string { return model.SafeString(res) + " " + model.PartsString(model.Parts(res)) })
 	if bad := model.HasBad(obs); bad != "" && model.HasBad(exp) == "" {
 		c.Violate("reduce:malformed:"+bad, enc, model.PartsString(exp), model.PartsString(obs))
 		return
@@ -428,6 +432,7 @@ func (m c06) Run(c *fw.Ctx) {
 		m.checkReduce(c, mem, ord)
 		s := model.SafeString(v)
 		r2 := rand.New(rand.NewSource(seedStr))
+		m.checkText(c, c06GenNode(r2))
 		m.checkString(c, s, "printed")
 		if strings.Contains(s, "..>") {
 			// legacy spelling: marker after the number.
@@ -453,4 +458,194 @@ func min(a, b int) int {
 		return a
 	}
 	return b
+}
+
+// ---- text written by the harness, denotation read off the text ----
+
+// c06Node is a location expression of the harness's own making: its text is
+// assembled here, and what it denotes is read off the expression by the model
+// (through a literal value that no library constructor or method touched), so
+// a reader and a printer that are wrong in the same way do not cancel out.
+type c06Node struct {
+	kind   string // point | between | range | ambiguous | complement | join | order
+	a, b   int
+	p5, p3 bool
+	kids   []*c06Node
+}
+
+func (n *c06Node) text() string {
+	switch n.kind {
+	case "point":
+		return fmt.Sprint(n.a + 1)
+	case "between":
+		return fmt.Sprintf("%d^%d", n.a, n.a+1)
+	case "ambiguous":
+		return fmt.Sprintf("%d.%d", n.a+1, n.b)
+	case "range":
+		s := ""
+		if n.p5 {
+			s += "<"
+		}
+		s += fmt.Sprintf("%d..", n.a+1)
+		if n.p3 {
+			s += ">"
+		}
+		return s + fmt.Sprint(n.b)
+	case "complement":
+		return "complement(" + n.kids[0].text() + ")"
+	}
+	tt := make([]string, len(n.kids))
+	for i, k := range n.kids {
+		tt[i] = k.text()
+	}
+	return n.kind + "(" + strings.Join(tt, ",") + ")"
+}
+
+func (n *c06Node) literal() gts.Location {
+	switch n.kind {
+	case "point":
+		return gts.Point(n.a)
+	case "between":
+		return gts.Between(n.a)
+	case "ambiguous":
+		return gts.Ambiguous{n.a, n.b}
+	case "range":
+		return gts.Ranged{Start: n.a, End: n.b, Partial: gts.Partial{Partial5: n.p5, Partial3: n.p3}}
+	case "complement":
+		return gts.Complemented{Location: n.kids[0].literal()}
+	}
+	ll := make([]gts.Location, len(n.kids))
+	for i, k := range n.kids {
+		ll[i] = k.literal()
+	}
+	if n.kind == "order" {
+		return gts.Ordered(ll)
+	}
+	return gts.Joined(ll)
+}
+
+func (n *c06Node) depth() int {
+	d := 0
+	for _, k := range n.kids {
+		if x := k.depth(); x > d {
+			d = x
+		}
+	}
+	if n.kind == "complement" || n.kind == "join" || n.kind == "order" {
+		d++
+	}
+	return d
+}
+
+// c06GenNode draws an expression over pairwise separated leaves (a gap of at
+// least one residue between any two, so that no reduction applies and the
+// expression denotes exactly what its leaves denote, in the order written).
+func c06GenNode(r *rand.Rand) *c06Node {
+	nl := 1 + r.Intn(5)
+	var leaves []*c06Node
+	pos := r.Intn(3)
+	for i := 0; i < nl; i++ {
+		w := 1 + r.Intn(6)
+		var lf *c06Node
+		switch r.Intn(8) {
+		case 0:
+			lf = &c06Node{kind: "point", a: pos}
+			w = 1
+		case 1:
+			lf = &c06Node{kind: "between", a: pos + 1}
+			w = 2
+		case 2:
+			if w < 2 {
+				w = 2
+			}
+			lf = &c06Node{kind: "ambiguous", a: pos, b: pos + w}
+		default:
+			lf = &c06Node{kind: "range", a: pos, b: pos + w, p5: r.Intn(4) == 0, p3: r.Intn(4) == 0}
+		}
+		leaves = append(leaves, lf)
+		pos += w + 1 + r.Intn(4)
+	}
+	if r.Intn(3) == 0 {
+		r.Shuffle(len(leaves), func(i, j int) { leaves[i], leaves[j] = leaves[j], leaves[i] })
+	}
+	var build func(ls []*c06Node, depth int) *c06Node
+	build = func(ls []*c06Node, depth int) *c06Node {
+		var n *c06Node
+		if len(ls) == 1 {
+			n = ls[0]
+		} else {
+			kind := "join"
+			if r.Intn(3) == 0 {
+				kind = "order"
+			}
+			n = &c06Node{kind: kind}
+			// split the leaves into 2..len groups; a group of several leaves
+			// becomes a nested list when depth allows, else its leaves are members.
+			for i := 0; i < len(ls); {
+				g := 1
+				if depth < 2 && r.Intn(3) == 0 {
+					g = 1 + r.Intn(len(ls)-i)
+				}
+				if g == len(ls) {
+					g = len(ls) - 1
+				}
+				if g < 1 {
+					g = 1
+				}
+				n.kids = append(n.kids, build(ls[i:i+g], depth+1))
+				i += g
+			}
+		}
+		if depth < 3 && r.Intn(3) == 0 {
+			n = &c06Node{kind: "complement", kids: []*c06Node{n}}
+		}
+		return n
+	}
+	return build(leaves, 0)
+}
+
+func (m c06) checkText(c *fw.Ctx, n *c06Node) {
+	s := n.text()
+	enc := "text " + s
+	c.Begin(enc)
+	exp := model.Parts(n.literal())
+	c.Count(enc, len(exp) >= 2 || len(model.Markers(exp)) > 0)
+	c.Bucket("text:denotation")
+	if n.depth() >= 3 {
+		c.Bucket("text:depth>=3")
+	}
+	var parsed gts.Location
+	var err error
+	if p, val, site, stack := fw.Guard(func() { parsed, err = gts.AsLocation(s) }); p {
+		c.ViolateX("text:parse:"+panicClass(site, val), enc, "no panic", fmt.Sprint(val), stack, nil)
+		return
+	}
+	if err != nil {
+		c.Violate("text:not-accepted", enc, "accepted", err.Error())
+		return
+	}
+	obs := model.Parts(parsed)
+	if ok, why := sameDenotation(exp, obs, false); !ok {
+		c.Violate("text:denotes-other-"+why, enc, model.PartsString(exp), model.SafeString(parsed)+" = "+model.PartsString(obs))
+		return
+	}
+	// join or order, part by part.
+	if len(exp) == len(obs) {
+		for i := range exp {
+			if exp[i].Ord != obs[i].Ord {
+				c.Violate("text:list-kind", enc, model.PartsString(exp), model.SafeString(parsed)+" = "+model.PartsString(obs))
+				return
+			}
+		}
+	}
+	// and printing what was read gives a text that reads the same.
+	ps := model.SafeString(parsed)
+	var again gts.Location
+	if p, _, _, _ := fw.Guard(func() { again, err = gts.AsLocation(ps) }); p || err != nil {
+		c.Violate("text:print-not-accepted", enc, "accepted", ps)
+		return
+	}
+	if ok, why := sameDenotation(exp, model.Parts(again), false); !ok {
+		c.Violate("text:print-denotes-other-"+why, enc, model.PartsString(exp), ps+" = "+model.PartsString(model.Parts(again)))
+	}
 }
